@@ -241,6 +241,8 @@ def run(ctx: Ctx) -> None:
                       "with_route": False, "with_index": True})
         if k % 3 == 1:
             items[-1]["cosim"] = ["unknown"]    # ... or to "modify" stations / bases the simulation does not hold
+        if k % 4 == 2:
+            items[-1]["resubmit"] = True        # riders submitting their request again under the same id from another place (F19)
         if k % 3 == 0:
             items[-1]["cosim"] = ["move"]       # a co-simulation user tries to move stations / bases through the safe API
     items.append({"id": "denver_demo", "kind": "shipped", "scenario": str(SCEN_DENVER / "denver_demo.yaml"),
